@@ -12,6 +12,8 @@ import BSModel.Model.Depth
     midname := name code of the tag the harness calls `mid` (used by the name+string searches)
     linked := 1 when the root object's next_element points into the tree (after insert(0, …) / on a copy)
 
+    c11 events <recv> <event>*      the code mirror of `_event_stream` on the receiver: "<mirror events> | <skeleton> | <cost> <evCmp>"
+
     The tree is assembled from the events with an explicit stack (no recursion on the nesting). Reply: a number,
     or `bad-…`. -/
 namespace BS.Drv.C11
@@ -176,7 +178,34 @@ def oneOp (cfg : Cfg) (nm : Names) (root : Loc) (tags : List Loc) (midName : Nat
       | none => "bad-op"
   | _ => "bad-spec"
 
+def showEvt : Evt → String
+  | .start i => s!"S{i}"
+  | .end i => s!"E{i}"
+  | .empty i => s!"X{i}"
+  | .string i => s!"T{i}"
+
+/-- `events <recv> <event>*` (recv: `r` = the hidden document object, `<k>` = the k-th tag, `c<k>` = that tag with
+    `iterator=self.descendants`): the code mirror of `_event_stream` on the receiver's subtree (identities = positions in
+    document order below the receiver), then the recursive skeleton, then the deepest comparison of the `!=` variant -/
+def handleEvents (recv : String) (toks : List String) : String :=
+  match buildTree true toks with
+  | none => "bad-events"
+  | some rootNode =>
+    let tags := (descs [] rootNode).filter (fun d => isTag d.node)
+    let contents := recv == "r" || recv.startsWith "c"
+    let idx := if recv.startsWith "c" then (recv.drop 1).toString else recv
+    match (if recv == "r" then some rootNode else (tags[idx.toNat!]?).map (·.node)) with
+    | none => "bad-recv"
+    | some t =>
+      let r := if contents then eventStreamContentsImpl repaired t else eventStreamImpl repaired t
+      let o := if contents then eventStreamContentsImpl unrepaired t else eventStreamImpl unrepaired t
+      let spec := if contents then evSpecL 1 (kidsOf t) else evSpecN 0 t
+      let ch := if contents then evCmpContents unrepaired t else evCmp unrepaired t
+      " ".intercalate (r.1.map showEvt) ++ " | " ++ " ".intercalate (spec.map showEvt) ++ " | " ++
+        toString o.2 ++ " " ++ toString ch
+
 def handle : List String → String
+  | "events" :: recv :: toks => handleEvents recv toks
   | "depth" :: variant :: rootkx :: midname :: prel :: scl :: nops :: rest =>
     let cfg := if variant == "old" then unrepaired else repaired
     let k := nops.toNat!
